@@ -108,6 +108,39 @@ def run(ctx):
         same = all(render(kids(n)[2], False) == render(kids(idx[0])[2], False) for n in idx) and any(
             n["k"] == "CXXOperatorCallExpr" and n.get("op") == "[]" and "this->arguments" in render(kids(n)[1], False) and render(kids(n)[2], False) == render(kids(idx[0])[2], False) for n in su.walk())
         R.ob("C10-R2", same, su.q, "arguments[i] paired with metadata.arguments[i]", su.site(idx[0]), "received and declared argument are taken at the same index")
+    if cc:
+        # inside the per-argument loop the only way round the check is `not a memory argument` / `null`: no other early continue / break
+        loops = [a for a in su.ancestors(cc[0]) if a["k"] in ("ForStmt", "WhileStmt", "CXXForRangeStmt") and not a.get("mac")]
+        if not loops:
+            raise AnalysisBroken("setupRun: the dtype check is not inside the argument loop")
+        cfg_ = su.cfg
+        IN_ = cfg_.facts_in()
+        ALLOWED = ("getModeMemory", "isNull")
+        n_skip = 0
+        for j in walk(loops[0]):
+            if j["k"] not in ("ContinueStmt", "BreakStmt") or not cfg_.before(j, cc[0]) and cfg_.find_path(cfg_.position(j), lambda b, i, e: e == cc[0]["i"], lambda b, i, e: False) is None and False:
+                continue
+            if any(a["k"] in ("DoStmt",) and a.get("mac") for a in su.ancestors(j)):
+                continue          # the do { } while (0) of OCCA_ERROR
+            n_skip += 1
+            foreign = []
+            for (k, pol) in cfg_.facts_at(j, IN_):
+                fn_ = cfg_.fact_node((k, pol)) if (k, pol) in cfg_._factnode else None
+                if fn_ is None:
+                    continue
+                if not any(a["i"] == loops[0]["i"] for a in su.ancestors(fn_)) and not any(
+                        v_["k"] == "VarDecl" and any(a["i"] == loops[0]["i"] for a in su.ancestors(v_)) and any(y is fn_ or y["i"] == fn_["i"] for y in walk(v_)) for v_ in walk(loops[0])):
+                    continue      # a condition tested outside the loop (validation switched on, metadata present)
+                for x in walk(fn_):
+                    if is_call(x) and callee(x) and callee(x).split("::")[-1] not in ALLOWED and not callee(x).startswith("std::operator"):
+                        foreign.append(callee(x).split("::")[-1])
+                    if x["k"] == "MemberExpr" and x.get("n", "").startswith("occa::modeKernel_t::") and x.get("n", "").split("::")[-1] not in ("arguments", "metadata"):
+                        foreign.append(x["n"].split("::")[-1])
+            R.ob("C10-R2", not foreign, su.q, "argument skips the dtype check only if it is no memory / null", su.site(j),
+                 "the early `continue` depends only on the argument being a non-pointer or null" if not foreign else
+                 "a memory argument can leave the loop body before the dtype check, depending on %s: a launch with a wrong element type is accepted without an exception" % sorted(set(foreign)))
+        if n_skip < 1:
+            raise AnalysisBroken("setupRun: no early continue found in the argument loop")
     vt = [n for n in su.walk() if n["k"] == "VarDecl" and n["n"] == "validateTypes"]
     ok = bool(vt) and "isInitialized" in render(vt[0], False) and literal([a for c in walk(vt[0]) if is_call(c) and callee(c).startswith("occa::json::get") for a in call_args(c)][1]) is True
     R.ob("C10-R2", ok, su.q, "validation on by default", su.site(vt[0]) if vt else su.relfile, "type_validation defaults to true and applies whenever metadata is present")
